@@ -24,9 +24,9 @@ pub struct FileSplit {
     pub wildcard_imports: bool,
 }
 
-// the same base name in nested directories: equal specifier texts ("../lib.graphql") then denote
+// the same base name in nested directories: equal specifier texts ("./sub/lib.graphql", "../lib.graphql") then denote
 // different files depending on the importing file
-const LIB_PATHS: [&str; 3] = ["lib.graphql", "frags/lib.graphql", "frags/deep/lib.graphql"];
+const LIB_PATHS: [&str; 3] = ["lib.graphql", "sub/lib.graphql", "sub/sub/lib.graphql"];
 
 fn direct_spreads(sels: &[MSelection], out: &mut BTreeSet<String>) {
     for s in sels {
@@ -62,17 +62,35 @@ fn spell(ch: &mut Choices, from: &str, to: &str) -> String {
 }
 
 pub fn split_into_files(ch: &mut Choices, doc: &MOpDoc) -> FileSplit {
+    split_into_files_forced(ch, doc, &[])
+}
+
+/// `forced`: (fragment name, library index 1..=3) pairs whose home file is fixed
+pub fn split_into_files_forced(ch: &mut Choices, doc: &MOpDoc, forced: &[(String, usize)]) -> FileSplit {
     let frag_names: Vec<String> = doc.iter().filter_map(|d| if let MExecDef::Frag(f) = d { Some(f.name.clone()) } else { None }).collect();
     let has_ops = doc.iter().any(|d| matches!(d, MExecDef::Op(_)));
     // with fragments present: a single file in 1 of 5 cases, else 1-3 library files
-    let k = if frag_names.is_empty() || !has_ops || ch.chance(1, 5) { 0 } else { (1 + ch.below(LIB_PATHS.len())).min(frag_names.len()) };
+    let k = if frag_names.is_empty() || !has_ops || (forced.is_empty() && ch.chance(1, 5)) { 0 } else { (1 + ch.below(LIB_PATHS.len())).min(frag_names.len()) };
+    let k = k.max(forced.iter().map(|f| f.1).max().unwrap_or(0)).min(LIB_PATHS.len());
     if k == 0 {
         return FileSplit { files: vec![("main.graphql".into(), doc.clone())], max_chain: 0, diamond: false, specific_imports: false, wildcard_imports: false };
     }
     // home file of each fragment: 0 = main, 1..=k = libs
     let mut home: BTreeMap<String, usize> = BTreeMap::new();
-    for n in &frag_names {
-        let h = if ch.chance(1, 5) { 0 } else { 1 + ch.below(k) };
+    // later fragments may spread earlier ones: placing them in definition order into ever deeper library
+    // files (half of the time) makes import chains deep -> frags -> top, whose "../lib.graphql" specifiers
+    // are textually equal but denote different files
+    let ordered = ch.flip();
+    for (i, n) in frag_names.iter().enumerate() {
+        let h = if ch.chance(1, 6) {
+            0
+        } else if ordered {
+            // earlier fragments deeper: main -> sub/lib ("./sub/lib.graphql") -> sub/sub/lib ("./sub/lib.graphql")
+            k - i.min(k - 1)
+        } else {
+            1 + ch.below(k)
+        };
+        let h = forced.iter().find(|f| &f.0 == n).map(|f| f.1).unwrap_or(h);
         home.insert(n.clone(), h);
     }
     let path_of = |i: usize| -> String { if i == 0 { "main.graphql".to_string() } else { LIB_PATHS[i - 1].to_string() } };
